@@ -15,10 +15,8 @@ def strip_impl(o):
 
 
 def agree(im, mo):
-    if im.startswith("answered=") or im.startswith("refused="):
-        return im == mo
     if not mo.startswith("n="):
-        return False
+        return im == mo        # deterministic model runs (whole-server bursts, shutdown scenarios)
     if "BUDGET-EXHAUSTED" in mo:
         return True        # exploration cut short: no verdict from the model on this case
     allowed = [x.strip() for x in mo.split(" ", 1)[1].split(" | ")] if " " in mo else []
